@@ -109,8 +109,8 @@ Print Assumptions C12_same_operands.
 
 (* a statement means the same whether its value is used or discarded: in both compilation modes
    the emitted code realises ssem (the flag d is the Discard flag) *)
-Theorem C12_statement_used_or_discarded : forall t, wstmt t = true ->
-  forall d sel s w s', sel = 0 -> wfcs s -> Compile.comp t sel (tfl d) s = COk (w, s') -> SpecS t d sel s s' w.
+Theorem C12_statement_used_or_discarded : forall Bf t, wstmt t = true ->
+  forall d sel s w s', sel = 0 -> wfcs s -> Compile.comp t sel (tfl d) s = COk (w, s') -> SpecS Bf t d sel s s' w.
 Proof. exact comp_stmt. Qed.
 Print Assumptions C12_statement_used_or_discarded.
 
@@ -126,9 +126,9 @@ Theorem C12_condition_class : forall r,
 Proof. intros r. reflexivity. Qed.
 Print Assumptions C12_condition_class.
 
-Theorem C12_negated_if_swap_compiled : forall n G c a b r,
+Theorem C12_negated_if_swap_compiled : forall Bf n G c a b r,
   pure c = true ->
-  ssem (S n) G (NIfElse (NUn "!" c) a b) = Some r -> ssem (S n) G (NIfElse c b a) = Some r.
+  ssem Bf (S n) G (NIfElse (NUn "!" c) a b) = Some r -> ssem Bf (S n) G (NIfElse c b a) = Some r.
 Proof. exact negated_if_swap. Qed.
 Print Assumptions C12_negated_if_swap_compiled.
 
